@@ -59,6 +59,9 @@ type synthState struct {
 	synSite     map[ssa.Value]*ssa.Call // synthetic value -> the call site it was translated at
 	usedAsValue map[*ssa.Function]bool
 	phiBusy     map[*ssa.Phi]bool
+	mapNN       map[*types.Var]int
+	allocs      map[string]*ssa.Alloc
+	wo          map[string]*woResult
 }
 
 func (w *World) ss() *synthState {
@@ -543,6 +546,28 @@ func (w *World) helperFacts(hc *ssa.Call, idx int, want string) []Fact {
 			tf := Fact{Atom{f.Op, w.translate(f.X, h, hc), w.translate(f.Y, h, hc)}, f.Truth}
 			set[w.factStr(tf)] = tf
 		}
+		// what this return says about the call's OTHER results: (alloc, nil) — the value
+		// returned next to a nil error is a fresh allocation; (entry, true) — the entry of a
+		// comma-ok lookup in a table that never holds nil
+		for j, rj := range ret.Results {
+			if j == ri {
+				continue
+			}
+			ex := extractOf(hc, j)
+			if ex == nil {
+				continue
+			}
+			switch rj.Type().Underlying().(type) {
+			case *types.Pointer, *types.Interface, *types.Map, *types.Slice, *types.Chan, *types.Signature:
+			default:
+				continue
+			}
+			rjv := w.resolveLoad(rj)
+			if ai.definitelyNonNil(rjv) || w.presentEntryOfNonNilTable(rjv, append(w.factsAt(ret), extra...)) {
+				nf := Fact{Atom{"==", ex, ssa.NewConst(nil, ex.Type())}, false}
+				set[w.factStr(nf)] = nf
+			}
+		}
 		if first {
 			acc, first = set, false
 		} else {
@@ -935,6 +960,10 @@ func (w *World) guardedLeaves(v ssa.Value, at ssa.Instruction) []leafCtx {
 			walk(e, fs, w.instrPos(pred.Instrs[len(pred.Instrs)-1]))
 		}
 	}
+	if at == nil {
+		walk(v, nil, "-")
+		return out
+	}
 	walk(v, w.factsAt(at), w.instrPos(at))
 	return out
 }
@@ -946,6 +975,14 @@ func (w *World) bodyRoot(fn *ssa.Function) *ssa.Function {
 		if fn.Parent() != nil {
 			fn = fn.Parent()
 			continue
+		}
+		if isBoundWrapper(fn) {
+			// the wrapper behind a method value belongs to the function that makes the value
+			if mcs := w.Closures[fn]; len(mcs) == 1 {
+				fn = mcs[0].Parent()
+				continue
+			}
+			return fn
 		}
 		site := w.singleSiteCI(fn)
 		if site == nil {
@@ -1054,4 +1091,108 @@ func (w *World) phiOutcomeFacts(phi *ssa.Phi, outcome string) []Fact {
 		out = append(out, acc[k])
 	}
 	return out
+}
+
+// presentEntryOfNonNilTable: v is result #0 of a comma-ok lookup m[k] whose #1 is known true
+// at ret (it is returned as another result that is the constant/known true there, or a
+// must-fact says so), and no nil is ever stored into that map field anywhere in the module.
+func (w *World) presentEntryOfNonNilTable(v ssa.Value, facts []Fact) bool {
+	ex, ok := stripIface(v).(*ssa.Extract)
+	if !ok || ex.Index != 0 {
+		return false
+	}
+	lk, ok := ex.Tuple.(*ssa.Lookup)
+	if !ok || !lk.CommaOk {
+		return false
+	}
+	present := false
+	for _, f := range facts {
+		if f.Op == "true" && f.Truth {
+			if e1, isE := f.X.(*ssa.Extract); isE && e1.Tuple == ssa.Value(lk) && e1.Index == 1 {
+				present = true
+			}
+		}
+	}
+	if !present {
+		return false
+	}
+	_, fld, isF := fieldLoad(w.resolveLoad(lk.X))
+	return isF && w.mapNeverHoldsNil(fld)
+}
+
+// mapNeverHoldsNil: every MapUpdate on a map loaded from field fld stores a value that is
+// definitely non-nil (a fresh allocation, or a parameter all of whose module call sites pass
+// one, depth ≤ 2).
+func (w *World) mapNeverHoldsNil(fld *types.Var) bool {
+	st := w.ss()
+	if st.mapNN == nil {
+		st.mapNN = map[*types.Var]int{}
+	}
+	switch st.mapNN[fld] {
+	case 1:
+		return false
+	case 2:
+		return true
+	}
+	st.mapNN[fld] = 1
+	ai := w.absint()
+	var nonNil func(v ssa.Value, depth int) bool
+	nonNil = func(v ssa.Value, depth int) bool {
+		v = w.resolveLoad(v)
+		if ai.definitelyNonNil(v) {
+			return true
+		}
+		if c, _ := callOf(v); c != nil {
+			// a constructor: every return is a fresh allocation
+			if h := c.Call.StaticCallee(); h != nil && w.IsMod[h] && len(h.Blocks) > 0 && depth > 0 {
+				all := true
+				for _, r := range returnsOf(h) {
+					if len(r.Results) == 0 || !nonNil(r.Results[0], depth-1) {
+						all = false
+					}
+				}
+				return all
+			}
+			return false
+		}
+		if p, ok := v.(*ssa.Parameter); ok && depth > 0 {
+			sites := w.callsTo(p.Parent())
+			if len(sites) == 0 {
+				return false
+			}
+			if obj := p.Parent().Object(); obj != nil && obj.Exported() && p.Parent().Pkg != nil && !strings.Contains(p.Parent().Pkg.Pkg.Path(), "/internal/") {
+				return false // public API: callers unknown
+			}
+			i := paramIndex(p)
+			for _, cs := range sites {
+				if i < 0 || i >= len(cs.Common().Args) || !nonNil(cs.Common().Args[i], depth-1) {
+					return false
+				}
+			}
+			return true
+		}
+		return false
+	}
+	n := 0
+	ok := true
+	for _, fn := range w.ModFns {
+		w.eachInstr(fn, func(in ssa.Instruction) {
+			mu, isMU := in.(*ssa.MapUpdate)
+			if !isMU {
+				return
+			}
+			if _, f, isF := fieldLoad(w.resolveLoad(mu.Map)); !isF || f != fld {
+				return
+			}
+			n++
+			if !nonNil(mu.Value, 3) {
+				ok = false
+			}
+		})
+	}
+	if ok && n > 0 {
+		st.mapNN[fld] = 2
+		return true
+	}
+	return false
 }
